@@ -228,7 +228,7 @@ def diff(a, b, path=''):
     return None if a == b else '%s: %r vs %r' % (path, a, b)
 
 
-OPS = ['P', 'D', 'I', 'S', 'E']
+OPS = ['P', 'D', 'I', 'S', 'E', 'F']
 
 
 def apply_op(m, op, lineage):
@@ -249,7 +249,11 @@ def apply_op(m, op, lineage):
                 py_SimulateSingleCell(np.linspace(0, 0.5, 5), Model=m, return_dataframes=False)
             else:
                 py_simulate_model(np.linspace(0, 0.5, 5), Model=m, stochastic=True, return_dataframe=False)
-    elif op == 'E':
+    elif op == 'F' and not lineage:
+        # an edit that adds a reaction with a delay of its own (its delay object differs from those of the earlier reactions)
+        m.create_reaction([B], [], 'massaction', {'k': 0.21}, 'fixed', [], [A], {'delay': 0.4})
+        m.set_species({A: 3})
+    elif op in ('E', 'F'):
         m.create_reaction([A], [B], 'massaction', {'k': 0.33})
         m.set_parameter('kf', 2.2)
         m.set_species({A: 4})
@@ -456,8 +460,15 @@ def run(ctx):
             if ctx.quick and len(h) == 2 and name not in ('everything', 'rule_assign_param', 'delay_gamma', 'general_terms1') and h[0] not in 'PD':
                 continue
             items.append(('plain', name, h))
+        # longer histories around a second / third initialisation (both tiers; models that carry delays and the full model)
+        if name.startswith('delay') or name == 'everything':
+            for h in (('F', 'I', 'P'), ('F', 'S', 'P'), ('F', 'I', 'D'), ('E', 'I', 'F', 'I', 'P'), ('F', 'I', 'E', 'S', 'D'), ('I', 'F', 'I', 'P', 'S', 'P')):
+                if h not in hists:
+                    items.append(('plain', name, h))
     for name in lin:
         for h in hists:
+            if 'F' in h:
+                continue        # (F is E for lineage models)
             if len(h) == 3 and (h.count('S') + h.count('E') > 1):
                 continue
             if ctx.quick and len(h) == 2 and name not in ('events', 'split_duplicate', 'vol_ode+div_general') and h[0] not in 'PD':
@@ -471,7 +482,7 @@ def run(ctx):
     ctx.rule = ('E2+E3: one plain model per member type (every propensity class, two general rates that together contain every Term node class, '
                 'every delay, every rule type/frequency) and one carrying all of them; lineage models for every volume rule / volume event / '
                 'division rule / division event / death rule / death event type and every LineageVolumeSplitter mode. Every history up to the '
-                'length bound over {pickle, deepcopy, initialise, simulate, edit} that contains a copy is applied; the result is compared with '
+                'length bound over {pickle, deepcopy, initialise, simulate, edit, edit that adds a delayed reaction} that contains a copy (plus six histories of length 3-6 around a second and third initialisation for the models with delays) is applied; the result is compared with '
                 'the same history without the copies: dictionaries, both matrices, every propensity in 4 forms at 6 states (H2), delays under '
                 'one scripted stream, rule behaviour, seeded simulation in every mode (bit-equal), seeded and scripted lineages incl. parent / '
                 'daughter structure; independence by editing either object. Result objects and cell states: pickle and deepcopy of each class. '
